@@ -131,8 +131,33 @@ fn main() {
             std::process::exit(0);
         }
         None => {
-            let workers = workers_override.unwrap_or(tier.pick(check.workers.0, check.workers.1));
-            let out = out.unwrap_or_else(|| format!("/verif/evidence/{prop}.json"));
+            let mut workers = workers_override.unwrap_or(tier.pick(check.workers.0, check.workers.1));
+            let mut out = out.unwrap_or_else(|| format!("/verif/evidence/{prop}.json"));
+            let mut extra = extra;
+            // --replay <witness file>: re-run exactly the execution the witness names; the
+            // evidence of a replay goes to scratch, never over the property's evidence file
+            if let Some(path) = &replay {
+                match std::fs::read_to_string(path).ok().and_then(|t| serde_json::from_str::<serde_json::Value>(&t).ok()) {
+                    Some(w) => {
+                        println!("REPLAY property={} signature={}", w["property"].as_str().unwrap_or("?"), w["signature"].as_str().unwrap_or("?"));
+                        if let Some(es) = w["detail"]["exec_seed"].as_u64() {
+                            extra.push("--exec-seed".into());
+                            extra.push(es.to_string());
+                            workers = 1;
+                            out = format!("/verif/scratch/replay-{prop}.json");
+                        } else {
+                            // checks over pure functions: the witness holds the complete input
+                            println!("REPLAY-WITNESS {}", serde_json::to_string(&w["detail"]).unwrap_or_default());
+                            println!("REPLAY-NOTE the witness above is the complete input of the failing evaluation; the run below re-explores the same seed");
+                            out = format!("/verif/scratch/replay-{prop}.json");
+                        }
+                    }
+                    None => {
+                        eprintln!("cannot read replay file {path}");
+                        std::process::exit(2);
+                    }
+                }
+            }
             let code = common::run_parent(
                 &check.spec,
                 &ParentArgs {
